@@ -195,16 +195,25 @@ def real_C09(ctx, pexpect, thorough):
         ctx.hit('C09/run', 'run(..., withexitstatus=True) returned status %r for exit(42)' % (st,), {})
     # run() that stops BEFORE the child's end of file (a callback returns True / the time runs out): the status it hands back is
     # still the child's fate as the spawn object recorded it - here children that shrug off the hang-up and leave by exit(N)
-    for how, cmd, want in (('callback', '''sh -c 'trap "" HUP INT; echo DONE; sleep 0.2; exit 7' ''', 7),
-                           ('timeout', '''sh -c 'trap "" HUP INT; echo READY; read x; exit 42' ''', 42)):
+    for how, cmd, want in (('callback', '''sh -c 'trap "" HUP INT; echo DONE; sleep 0.2; exit 7' ''', (7, None)),
+                           ('timeout', '''sh -c 'trap "" HUP INT; echo READY; read x; exit 42' ''', (42, None)),
+                           # ... and runs that reach EOF because the command dies of a signal: there is no exit code then
+                           ('eof', '''sh -c 'echo DONE; kill -TERM $$' ''', (None, 15)),
+                           ('eof', '''sh -c 'echo DONE; kill -KILL $$' ''', (None, 9)),
+                           ('eof', '''sh -c 'echo DONE; exit 143' ''', (143, None))):
         seen = {}
 
         def stop(d):
             seen['child'] = d['child']
             return True
+
+        def note(d):
+            seen['child'] = d['child']
         try:
             if how == 'callback':
                 out, st = pexpect.run(cmd, withexitstatus=True, events=[('DONE', stop)], timeout=10)
+            elif how == 'eof':
+                out, st = pexpect.run(cmd, withexitstatus=True, events=[('DONE', note)], timeout=10)
             else:
                 out, st = pexpect.run(cmd, withexitstatus=True, events=[(pexpect.TIMEOUT, stop)], timeout=1)
         except Exception as e:
@@ -212,8 +221,8 @@ def real_C09(ctx, pexpect, thorough):
             return
         tried += 1
         child = seen.get('child')
-        if child is None or st != child.exitstatus or (child.exitstatus, child.signalstatus) != (want, None):
-            ctx.hit('C09/run', 'run(%r, withexitstatus=True) stopped by a %s returned status %r; the spawn object says exitstatus=%r signalstatus=%r; the child leaves by exit(%d)'
+        if child is None or st != child.exitstatus or (child.exitstatus, child.signalstatus) != want:
+            ctx.hit('C09/run', 'run(%r, withexitstatus=True) ended by %s returned status %r; the spawn object says exitstatus=%r signalstatus=%r; the real fate is (exit code, signal) = %r'
                     % (cmd, how, st, getattr(child, 'exitstatus', '?'), getattr(child, 'signalstatus', '?'), want), {'cmd': cmd, 'how': how})
             return
     ctx.oracle_stats['real_children'] = tried
